@@ -609,3 +609,48 @@ Fixpoint iso_ok (parse_all : bool) (c : N) (s : srv808) (evs : list sev) : bool 
 Definition only (c : N) (evs : list sev) : list sev := filter (fun e => ev_conn e =? c) evs.
 Definition no_reconnect (c : N) (evs : list sev) : bool :=
   forallb (fun e => match e with Connect c0 => negb (c0 =? c) | _ => true end) evs.
+
+(* ---- the exact side condition of isolation on the JT808 server ---- *)
+(* the key a not yet joined connection presents when these messages are delivered: the terminal number of the
+   first message of a registered type other than 0x8003 (reader: handler lookup, re-issue path, then join) *)
+Fixpoint first_key (ps : list pmsg) : option (list N) :=
+  match ps with
+  | [] => None
+  | p :: t =>
+    match Reply.lookup (m_id (p_msg p)) with
+    | Some _ => if m_id (p_msg p) =? Reply.REISSUE then first_key t else Some (phone_of (p_msg p))
+    | None => first_key t
+    end
+  end.
+
+(* the key connection k claims with the read d (None: it has joined already, the read ends it, or no message of
+   it reaches the join) *)
+Definition claimed_key (now : N) (k : conn) (d : list N) : option (list N) :=
+  match k_key k with
+  | Some _ => None
+  | None =>
+    let '(_, msgs, err) := parse now (k_ps k) d in
+    match err with Some _ => None | None => first_key msgs end
+  end.
+
+(* nobody claims a key while connection c OWNS it.  (c itself may claim any key, also that of an established
+   session: it is refused and owns nothing.)  This is the one way a connection can influence another by design of
+   the registry - the first owner of a key keeps it (C11_refused_leaves_first_alone), a later claimant is ended. *)
+Fixpoint unclaimed (parse_all : bool) (c : N) (s : srv808) (evs : list sev) : bool :=
+  match evs with
+  | [] => true
+  | e :: t =>
+    match e with
+    | Data c0 now d =>
+      (c0 =? c) ||
+      match cfind c0 (v_conns s), cfind c (v_conns s) with
+      | Some k0, Some kc =>
+        match k_key kc, claimed_key now k0 d with
+        | Some own, Some cl => negb (list_eqb own cl)
+        | _, _ => true
+        end
+      | _, _ => true
+      end
+    | _ => true
+    end && unclaimed parse_all c (step808 parse_all s e) t
+  end.
